@@ -187,6 +187,11 @@ func runReplay(job *Job) Result {
 			}
 			got := callFn(r.Fn, args)
 			res.Stats.Calls++
+			if got == `{"panic":true}` && canon(r.Res) != got && len(res.Violations) < job.MaxViol {
+				// C04: an exported function panicked on an input for which the model predicts a result
+				res.Violations = append(res.Violations, Violation{Prop: "C04", What: "exported function panics", Text: r.Fn + string(args),
+					Detail: "panic: " + lastPanic, Sig: "fn-panic:" + r.Fn})
+			}
 			bad := ""
 			if r.Src == "decl" {
 				bad = subset(parseAny(string(r.Res)), parseAny(got), "res")
